@@ -44,6 +44,10 @@ class PyFormatter(Formatter):
         return True
 
     @override(Formatter)
+    def support_import_chain_as_member(self) -> bool:
+        return True
+
+    @override(Formatter)
     def format_comment(self, content: str) -> str:
         return f"# {content}"
 
